@@ -50,9 +50,9 @@ with open(os.path.join(V, "seeded", "RESULTS.md"), "w") as f:
     f.write("Every change below was confirmed by `tools/verify_seed.sh` (builds; whole suite passes with it; its demonstration fails\n"
             "with it and passes without it) on the /repo commit it was made for, and again after every later `fix:` commit that touched\n"
             "the code it edits (patches re-based or re-created, see `patch_rebased` / `demo_adapted` in each meta.json). *first run* = what the owning property's check reported the first time the change was\n"
-            "applied (rounds 2, 3, 4, 6, 7, 9, 10, 11, 12 and 13: those changes were produced after the checks existed and without knowledge of them).\n"
+            "applied (rounds 2, 3, 4, 6, 7, 9, 10, 11, 12, 13 and 14: those changes were produced after the checks existed and without knowledge of them).\n"
             "*now* = rules of the owning check that report it on the committed checker (`tools/seedrun.sh`).\n\n")
-    for rnd, label in ((2, "Round 2 (independent, after all checks existed)"), (3, "Round 3 (independent, after the round-2 strengthening)"), (4, "Round 4 (independent, after the round-3 strengthening; agents were told the obvious ideas were used and asked for second-order changes)"), (6, "Round 6 (independent, after the white-box hardening round W5)"), (7, "Round 7 (independent)"), (9, "Round 9 (independent, on the tree repaired by the two audit rounds)"), (10, "Round 10 (independent, on the tree repaired up to D48, after the refactoring rounds F10/F11)"), (11, "Round 11 (independent, after the third shape-tolerance pass: does the tolerance cost detection?)"), (12, "Round 12 (independent, on the tree repaired up to D51)"), (13, "Round 13 (independent, after the round-12 strengthening and the F14 tolerance pass)")):
+    for rnd, label in ((2, "Round 2 (independent, after all checks existed)"), (3, "Round 3 (independent, after the round-2 strengthening)"), (4, "Round 4 (independent, after the round-3 strengthening; agents were told the obvious ideas were used and asked for second-order changes)"), (6, "Round 6 (independent, after the white-box hardening round W5)"), (7, "Round 7 (independent)"), (9, "Round 9 (independent, on the tree repaired by the two audit rounds)"), (10, "Round 10 (independent, on the tree repaired up to D48, after the refactoring rounds F10/F11)"), (11, "Round 11 (independent, after the third shape-tolerance pass: does the tolerance cost detection?)"), (12, "Round 12 (independent, on the tree repaired up to D51)"), (13, "Round 13 (independent, after the round-12 strengthening and the F14 tolerance pass)"), (14, "Round 14 (8 changes on C02, C05, C14, C20 after audit A12)")):
         rr = [r for r in rows if r[2] == rnd]
         if not rr:
             continue
